@@ -12,6 +12,9 @@ DBAPI connection (in-transaction) / an independent observer connection (committe
   (c) a loaded many-to-one's target key equals the FK columns of the row;
   (d) a loaded collection's persistent members are exactly the rows that reference the
       parent (one-to-many) / the association rows (many-to-many, association object);
+      a member the history never removed or expunged but which is outside the session
+      (so no row was written for it) is reported as
+      ``collection-member-dropped-from-session-not-inserted``;
   (e) every row is owned by some live object (all rows are created by the generator);
   (f) at commit: a brand-new Session on a separate engine loads an equivalent graph
       (class, column values, many-to-one keys, collection membership).
@@ -28,6 +31,10 @@ S7 the reverse many-to-one is loaded before re-parenting (backrefs do not emit S
 find the old parent).  Contradictory input is never generated: deleting an object that
 takes part in an unflushed relationship change, a cascade onto a stale already-deleted
 member, a Node parent swap whose old+new edges form a cycle (judged by C31's probe).
+Objects are expunged only at the start of a transaction and only if they predate it (the
+session forgets everything about an expunged object, including rows it wrote); a detached
+object is re-added only if its loaded values are still current; after ``close()`` detached
+objects make no claim.
 A primary-key change is flushed at once (an attribute load while a PK change is pending
 raises ObjectDeletedError -- reported separately, outside this property).
 Histories whose flush raises are not judged here (C31 / C32 judge those).
@@ -214,6 +221,13 @@ Z3_ALPHA = [
 ]
 
 
+DROP_BASE = [
+    ["new", "Owner", 0, {"name": "o0"}, {}],
+    ["new", "Owner", 1, {"name": "o1"}, {}],
+    ["new", "Item", 2, {"qty": 1}, {"owner": 1}],
+]
+
+
 def run(ctx):
     import warnings
 
@@ -258,6 +272,14 @@ def run(ctx):
                     tail = [rng.choice(alpha) for _ in range(3)]
                     run_history(ctx, R, zoo, tpl, KNOBS[k], rng.random() < 0.5, lambda rig, b=base, t=tail: iter(b + t), 99)
                     ctx.count("sampled_len3_histories")
+
+        # ---- directed witnesses (run on every shard 0): a pending delete-orphan child moved
+        # to another parent is silently dropped from the session and never INSERTed
+        if ctx.shard == 0:
+            zoo, tpl = zoos.get(0)
+            for tail in ([["app", 0, "items", 2]], [["m2o", 2, "owner", 0]]):
+                run_history(ctx, R, zoo, tpl, KNOBS[0], True, lambda rig, t=tail: iter(DROP_BASE + t + [["flush"]]), 99)
+                ctx.count("directed_histories")
 
         # ---- part B: random histories
         nhist = ctx.pick({"quick": 170, "thorough": 2600})
